@@ -35,6 +35,12 @@ func (s *LStack[T]) Push(item T) {
 	defer s.mu.Unlock()
 
 	s.n++
+	if s.n == 1 {
+		// The list never gets empty: a drained stack still holds
+		// one node, which the first new item takes over.
+		s.list.Value = item
+		return
+	}
 	s.list.Append(item)
 }
 
@@ -57,6 +63,11 @@ func (s *LStack[T]) Peek() T {
 	s.mu.RLock()
 	defer s.mu.RUnlock()
 
+	if s.n == 0 {
+		var item T
+		return item
+	}
+
 	return s.list.Last()
 }
 
@@ -64,6 +75,10 @@ func (s *LStack[T]) Peek() T {
 func (s *LStack[T]) Search(item T) bool {
 	s.mu.RLock()
 	defer s.mu.RUnlock()
+
+	if s.n == 0 {
+		return false
+	}
 
 	if _, ok := s.list.Find(item); ok {
 		return true
